@@ -1137,7 +1137,7 @@ fn deep_chain(d: usize, top_is_larger: bool) -> Treap<KeyItem> {
 fn deep_work(d: usize, rounds: usize, top_is_larger: bool) -> bool {
     let mut t = deep_chain(d, top_is_larger);
     let mut x = 12345u64;
-    for _ in 0..rounds {
+    for round in 0..rounds {
         let pos = d / 2 + (lcg(&mut x) % (d as u64 / 3)) as usize;
         let (l, r) = t.split_at(pos);
         if l.size() != pos || r.size() != d - pos {
@@ -1149,6 +1149,14 @@ fn deep_work(d: usize, rounds: usize, top_is_larger: bool) -> bool {
         if t.size() != d {
             std::mem::forget(t);
             return false;
+        }
+        if round % 4 == 0 {
+            // an in-order walk over the whole chain while the other threads walk / split / merge theirs
+            let keys = t.collect();
+            if keys.len() != d || !keys.iter().enumerate().all(|(i, k)| k.key == i as u64) {
+                std::mem::forget(t);
+                return false;
+            }
         }
     }
     let ok = {
